@@ -267,6 +267,17 @@ theorem parse_render_false_separator :
   rw [fromStringF_noframes (e1 := "E: a".toList) (E := ["b".toList]) (by decide +kernel) (by decide +kernel)]
   intro h; have := Except.ok.inj h; revert this; decide +kernel
 
+/-- the exact extent of known finding C16-exotic-line-separators (for the message): every other str.splitlines
+    separator in the message - `\r`, `\r\n`, `\x0b`, `\x0c`, `\x1c`-`\x1e`, `\x85`, U+2028, U+2029 - comes back as `\n`
+    (`normSeps`), and nothing else changes: frames, type and the rest of the message are recovered -/
+theorem parse_render_separator_exact (pe : PE) (hm : pe.msg ≠ [])
+    (h : WFpe ⟨pe.frames, pe.etype, normSeps pe.msg⟩ = true) :
+    fromString (toString pe) = .ok ⟨pe.frames, pe.etype, normSeps pe.msg⟩ := by
+  unfold fromString; rw [fromStringF_separators pe hm h]; rfl
+
+example : normSeps "a b\r\nc\x0cd: e\rf".toList = "a\nb\nc\nd: e\nf".toList ∧
+    WFpe ⟨exFrames.map (·.1), "E".toList, normSeps "a b\r\nc\x0cd: e\rf".toList⟩ = true := by decide +kernel
+
 /-- a message whose last line reads `Exception ... ignored` loses that line -/
 theorem parse_render_false_trailer :
     ∃ pe : PE, fromString (toString pe) ≠ .ok pe := by
